@@ -1,4 +1,5 @@
 import RdsProofs.Reach
+import RdsProofs.WordedProofs
 import RdsProofs.LinkProofs
 /-!
 # Property C17 — settings are independent, clamped, and only changed by their setters
@@ -8,6 +9,7 @@ is changed only by the three setters (`Settings.setCorr` clamps with `min v 2`),
 and is untouched by parsing (`Mon.step`).
 -/
 -- THEOREM: RDS.C17
+-- THEOREM: RDS.C17_worded
 -- THEOREM: RDS.C17_clamp
 namespace RDS
 
